@@ -111,6 +111,11 @@ class FrameFit(Contract):
                     out["cache_%s_does_not_survive_refit" % attr] = z3.BoolVal(not contains_stale(s.fields.get(attr)))
         return out
 
+    def at_cut(self, E, a, old):
+        # a write cannot be undone: also checked where a path ends inside a loop (the arbitrary iteration forgets which arrays the loop-carried
+        # variables alias - e.g. weights that start as the caller's sample_weight and are updated "in place" by the first iteration)
+        return {"caller_%s_not_written" % d: z3.BoolVal(a[d].cell.writes == w) for d, w in old["writes"].items()}
+
     def ensures(self, E, a, res, old):
         return {"returns_self": z3.BoolVal(res is a["self"])}
 
